@@ -38,6 +38,7 @@ class Fn:
         self.extra = []           # extra parameters discovered (cos_x, sin_x, u_rand)
         self.notes = set()        # recognised idioms, e.g. ("coerce", "residue", "geometric_center")
         self.attrs = {}           # "self.geometric_center" -> (coq name, type)
+        self.ignored_params = set()   # python parameters used only inside recognised access paths
 
 
 def coq_const(node):
@@ -74,6 +75,10 @@ class Tr:
     # ------------------------------------------------------------------ expressions
     def expr(self, n, env):
         """returns (text, type, partial)"""
+        if not isinstance(n, (ast.Name, ast.Constant)):
+            key = ast.unparse(n)
+            if key in env and key in self.fn.attrs:      # a recognised access path, passed as a parameter
+                return env[key][0], env[key][1], False
         if isinstance(n, ast.Name):
             if n.id not in env:
                 raise Unsupported("unknown name %s" % n.id)
@@ -181,6 +186,21 @@ class Tr:
             if ta == V:
                 return "(vecm %s %s)" % (a, ev(0, M)), V, False
             raise Unsupported(".dot on %s" % ta)
+        if is_np(f, "dot") and len(args) == 2:
+            a, ta, pa = self.expr(args[0], env)
+            b, tb, pb = self.expr(args[1], env)
+            self.pure(pa or pb, n)
+            if (ta, tb) == (V, M):
+                return "(vecm %s %s)" % (a, b), V, False
+            if (ta, tb) == (M, V):
+                return "(mvec %s %s)" % (a, b), V, False
+            raise Unsupported("np.dot of %s and %s" % (ta, tb))
+        if is_np(f, "array") and len(args) == 1 and not isinstance(args[0], ast.List):
+            a, ta, pa = self.expr(args[0], env)
+            self.pure(pa, n)
+            if ta == M:
+                return a, M, False       # np.array(tuple of three row vectors)
+            raise Unsupported("np.array of %s" % ta)
         if is_np(f, "linalg", "inv") and len(args) == 1:
             return "(minv %s)" % ev(0, M), M, True
         if is_np(f, "round") and len(args) == 1:
@@ -402,7 +422,7 @@ def translate(source, pyname, fn):
             break
     if node is None:
         raise Unsupported("function %s not found" % pyname)
-    argnames = [a.arg for a in node.args.args if a.arg != "self"]
+    argnames = [a.arg for a in node.args.args if a.arg != "self" and a.arg not in fn.ignored_params]
     want = [p for p, _ in fn.params]
     if argnames != want:
         raise Unsupported("%s: parameters %s, expected %s" % (pyname, argnames, want))
@@ -460,6 +480,19 @@ def generate(repo):
     fd.notes.add(("coerce", "residue", "geometric_center"))      # `residue` is passed as its centre
     fd.attrs["self.geometric_center"] = ("self_center", V)
     out.append(translate(res_src, "distance_to", fd))
+    em_src = open(os.path.join(repo, "gaddlemaps", "_exchage_map.py")).read()
+    fr = Fn("restore_point_gen", [("proyection", V)], "V3 T")
+    fr.ignored_params.add("atomref")
+    fr.attrs["self._refsystems[atomref][1]"] = ("frame_origin", V)
+    fr.attrs["self._refsystems[atomref][0]"] = ("frame_rows", M)
+    out.append(translate(em_src, "_restore_point", fr))
+    fp = Fn("proyect_point_gen", [], "V3 T")
+    fp.ignored_params.update(("atomref", "atomtarget"))
+    fp.attrs["self._refsystems[atomref][1]"] = ("frame_origin", V)
+    fp.attrs["self._refsystems[atomref][0]"] = ("frame_rows", M)
+    fp.attrs["atomtarget.position"] = ("target_position", V)
+    fp.attrs["self.scale_factor"] = ("scale_factor", S)
+    out.append(translate(em_src, "_proyect_point", fp))
     out.append("End KernelsGen.\n")
     return "\n".join(out)
 
